@@ -289,7 +289,10 @@ class C14Run(E2Run):
             elif x < 0.55 and sws:
                 name = r.choice(sws)
                 kind = "service" if name in {s.name for s in node.services.values()} else "application"
-                self.emit(["req", base + [kind, name, r.choice(["compromise", "compromise", "fix", "fix", "scan", "scan"])], "health"])
+                verbs = ["compromise", "compromise", "fix", "fix", "scan", "scan"]
+                if kind == "service":
+                    verbs += ["stop", "start", "disable", "enable", "pause", "resume"]  # a fix keeps running through these
+                self.emit(["req", base + [kind, name, r.choice(verbs)], "health"])
             elif x < 0.62:
                 self.emit(["req", base + ["os", "scan"], "health"])
             elif x < 0.80 and folders:
